@@ -5,7 +5,7 @@
    harness/c17_pipeline.py. *)
 From Coq Require Import ZArith List Bool Ascii String.
 From Cnfgen Require Import Sem Comb Linear IR Text Dimacs DimacsFacts Cli GraphSpec Subst Fam_php Fam_ordering C03_Util.
-From Cnfgen Require Import Pipeline PipelineFacts PipelineOptFacts.
+From Cnfgen Require Import PipelineGraph Pipeline PipelineFacts PipelineOptFacts.
 Import ListNotations.
 Open Scope Z_scope.
 
